@@ -264,7 +264,7 @@ fn leg_jets(ctx: &Ctx, out: &mut Out, mode: Mode) {
         }
         let t = Term::new(Tm::Jet(name), &src, &tgt);
         let inputs = jet_inputs(&src, name, ctx.tier);
-        for p in [Place::Bare, Place::ReadOffset(3), Place::WriteOffset(5), Place::DirtyOutput] {
+        for p in [Place::Bare, Place::ReadOffset(3), Place::WriteOffset(5), Place::DirtyOutput, Place::ThenReread] {
             // placements other than bare on a thinned input set
             let ins: Vec<Rc<RV>> = if p == Place::Bare { inputs.clone() } else { inputs.iter().step_by(1 + inputs.len() / 512).cloned().collect() };
             let label = || format!("{} at {:?} ({} inputs)", t.describe(), p, ins.len());
@@ -346,7 +346,7 @@ fn leg_disconnect(ctx: &Ctx, out: &mut Out, mode: Mode) {
             continue;
         }
         let inputs = inputs_of(&t.src);
-        for p in [Place::Bare, Place::ReadOffset(1), Place::WriteOffset(7), Place::DirtyOutput] {
+        for p in [Place::Bare, Place::ReadOffset(1), Place::WriteOffset(7), Place::DirtyOutput, Place::ThenReread] {
             let label = || format!("{} at {:?}", t.describe(), p);
             if !ctx.begin(leg, &label) {
                 continue;
@@ -490,7 +490,7 @@ fn leg_asymmetric(ctx: &Ctx, out: &mut Out, mode: Mode) {
             continue;
         }
         let inputs = inputs_of(&t.src);
-        for p in [Place::Bare, Place::ReadOffset(1), Place::DirtyOutput] {
+        for p in [Place::Bare, Place::ReadOffset(1), Place::DirtyOutput, Place::ThenReread] {
             let label = || format!("{name} : {} -> {} at {:?}", t.src, t.tgt, p);
             if !ctx.begin(leg, &label) {
                 continue;
@@ -549,7 +549,7 @@ fn leg_padded_sources(ctx: &Ctx, out: &mut Out, mode: Mode) {
             let inputs = inputs_of(&u.types[a]);
             for size in 1..=smax {
                 for term in u.gen(a, t, size).iter() {
-                    for p in [Place::Bare, Place::DirtyOutput] {
+                    for p in [Place::Bare, Place::DirtyOutput, Place::ThenReread] {
                         let label = || format!("{} at {:?}", term.describe(), p);
                         if !ctx.begin(leg, &label) {
                             continue;
